@@ -116,6 +116,22 @@ class Order:
                     ax.append(as_lin(add(sub(a, a[1]), a[2])))     # satsub(a,b) >= a - b
             elif tg == "align_of":
                 ax.append(as_lin(add(a, const(-1))))
+            elif tg in ("div", "rem") or (tg == "mul" and any(tag(u) == "div" for u in a[1:3])):
+                # x = y * (x / y) + x % y,  0 <= x % y <= y - 1   (integer division of unsigned values; y != 0 is asserted by the division itself)
+                dv = a if tg == "div" else (("div", a[1], a[2]) if tg == "rem" else [u for u in a[1:3] if tag(u) == "div"][0])
+                x_, y_ = dv[1], dv[2]
+                try:
+                    from sym import mul as _mul
+                    prod = _mul(y_, dv)
+                    rm = ("rem", x_, y_)
+                    ident = as_lin(sub(sub(x_, prod), rm))
+                    ax.append(ident)
+                    ax.append(as_lin(neg(ident)))
+                    ax.append(as_lin(rm))
+                    ax.append(as_lin(dv))
+                    ax.append(as_lin(add(sub(y_, rm), const(-1))))
+                except Exception:
+                    pass
             elif tg == "call" and isinstance(a[1], str) and a[1].endswith("::saturating_add") and "<impl u" in a[1] and len(a[2]) == 2:
                 p_, q_ = a[2]
                 try:
